@@ -4,9 +4,12 @@ from props._common import frame_unit, bounded_unit
 from contracts import factory, lexer
 
 LEVEL = 'proof'
-TECHNIQUE = ('pyvc contract on the real _build_operator_table for a family '
-             'of table shapes with SYMBOLIC operator kinds (group numbering '
-             'and sign conventions); frame contracts for factory/parser/'
+TECHNIQUE = ('pyvc contracts on the real YaqlFactory.__init__ (default, no '
+             'keyword operator, legacy), insert_operator (7 table shapes x '
+             'every anchor x arity x create_group, symbolic kinds, against '
+             'the stated placement rule), _build_operator_table (5 shapes, '
+             'SYMBOLIC kinds: group numbering and sign conventions) and the '
+             'generated p_unary / p_binary productions; frame contracts for factory/parser/'
              'lexer construction; production contracts for argument lists; '
              'bounded stand-in: the generated LALR parser of real engines is '
              'compared with an independent table-driven precedence parser')
@@ -21,23 +24,26 @@ LEVEL_TEXT = ('Deductive part: for every table of the listed shapes and '
               'verifier\'s reach: it is covered by a BOUNDED comparison '
               '(169k expressions over 6 tables) and labelled as such.')
 LEVEL_NOTE = ('ply.yacc conflict resolution by the precedence rows is '
-              'assumed; _generate_operator_funcs and insert_operator are '
+              'assumed; the precedence rows of _generate_operator_funcs are '
               'covered only by the bounded comparison (tables: default, '
               'legacy, prefix+right-assoc dual role, same-group and '
               'new-group insertions, customised-after-create, tightest / '
               'loosest insertions; expressions: <= 3 binary and <= 2 prefix '
               'operators, with a parenthesised variant and extra '
-              'whitespace). Suffix operators, indexers and member access are '
-              'not generated.')
+              'whitespace; plus tables without a keyword operator and with '
+              'a left-associative group looser than `->`). Suffix '
+              'operators, indexers and member access are not generated.')
 
 
 def units(ctx):
     us = [frame_unit('C02')]
     us += [contract_unit(c, world_setup=factory.setup)
-           for c in factory.contracts()]
+           for c in factory.contracts() + factory.init_contracts()
+           + factory.insert_contracts()]
     us += [contract_unit(c, world_setup=lexer.setup)
            for c in lexer.contracts() if 'p_arg' in c.short
-           or 'p_args' in c.short]
+           or 'p_args' in c.short or 'p_unary' in c.short
+           or 'p_binary' in c.short]
     us.append(bounded_unit(
         'bounded:c02-tables', 'c02_tables.py',
         'BOUNDED: real LALR parser vs table-driven reference parser on 6 '
